@@ -11,6 +11,8 @@ package backend
 import (
 	"io/fs"
 	"os"
+	"path/filepath"
+	"syscall"
 
 	"github.com/versity/versitygw/s3err"
 )
@@ -54,6 +56,13 @@ func MkdirAll(path string, uid, gid int, doChown bool, dirPerm fs.FileMode) erro
 		if err != nil {
 			return err
 		}
+	} else if !filepath.IsAbs(path) {
+		// path is the first element of a relative path: for the posix
+		// backend that is the bucket directory itself. Buckets are only
+		// created by CreateBucket (which also sets owner and ACL): a
+		// request that finds its bucket gone must fail instead of
+		// bringing back a directory without owner.
+		return &fs.PathError{Op: "mkdir", Path: path, Err: syscall.ENOENT}
 	}
 
 	// Parent now exists; invoke Mkdir and use its result.
